@@ -94,6 +94,10 @@ func upgradeDumpBody(r *Run) {
 	}
 	longHistory := Chance(t, "longSnapshotHistory?", 35) // netmap: history extended beyond the default before the upgrade
 	twice := Chance(t, "twice?", 30)
+	candState := 0
+	if Chance(t, "candidateInMaintenance?", 40) {
+		candState = 1
+	}
 	claim := 0
 	if Chance(t, "claimVersion?", 50) {
 		claim = 1 + Pick(t, "claimVersion", 10)
@@ -143,6 +147,32 @@ func upgradeDumpBody(r *Run) {
 					}
 				}
 				out = append(out, KV{K: []byte("snapshot_\x0a"), V: s0}, KV{K: []byte("snapshot_\x0b"), V: s1})
+			}
+		}
+		if name == "netmap" && candState > 0 {
+			// one recorded candidate in another state than Online (the dumps hold
+			// online candidates only): {{BLOB}, state} records under "candidate"
+			done := false
+			for i := range out {
+				if done || !bytes.HasPrefix(out[i].K, []byte("candidate")) {
+					continue
+				}
+				it, err := stackitem.Deserialize(out[i].V)
+				if err != nil {
+					continue
+				}
+				f, ok := it.Value().([]stackitem.Item)
+				if !ok || len(f) != 2 {
+					continue
+				}
+				if _, err := f[1].TryInteger(); err != nil {
+					continue
+				}
+				f[1] = stackitem.Make(int64(3)) // MAINTENANCE
+				if raw, err := stackitem.Serialize(stackitem.NewStruct(f)); err == nil {
+					out[i].V = raw
+					done = true
+				}
 			}
 		}
 		if name == "container" && extraAcc > 0 {
@@ -465,7 +495,15 @@ func dumpSweep(w *World, target string, dc *Deployed) map[string]string {
 				if inner, ok := first.Value().([]stackitem.Item); ok && len(inner) > 0 {
 					first = inner[0]
 				}
-				bl = append(bl, fmt.Sprintf("%x", ItemBytes(first)))
+				// … and the state where one is given (a bare BLOB is a node of a
+				// published map of the time before MAINTENANCE existed: online)
+				st := int64(1)
+				if len(f) >= 2 {
+					if v, err := f[1].TryInteger(); err == nil {
+						st = v.Int64()
+					}
+				}
+				bl = append(bl, fmt.Sprintf("%x/%d", ItemBytes(first), st))
 			}
 			sort.Strings(bl)
 			out[label] = strings.Join(bl, ",")
